@@ -380,7 +380,8 @@ class Impl:
     def diffed(self, out):
         if out[0] != "full":
             return out
-        return ["ok", [[k, v] for k, v in out[1].items() if v != self.base[k]], out[2]]
+        # compared as JSON text: True, 1 and 1.0 are equal for Python's == and must stay apart here
+        return ["ok", [[k, v] for k, v in out[1].items() if json.dumps(v) != json.dumps(self.base[k])], out[2]]
 
 
 # ------------------------------------------------------------------ value pools
@@ -585,6 +586,25 @@ def ill_typed_values(tclass):
     return md, tm
 
 
+def forced_ill_typed(tclass):
+    """(markdown value lists, TOML values) of the neighbouring types, drawn for EVERY option of the class in
+    every run, quick tier included: Python's bool is a subclass of int and True == 1, so an isinstance test or an
+    == comparison in the settings code lets exactly these through.  Any outcome other than a rejection naming
+    the option is a failing input."""
+    if tclass == "TBool":
+        return [["0"], ["1"]], [0, 1, 1.0]
+    if tclass in ("TInt", "TOptInt"):
+        return [["true"], ["1.5"]], [True, False, 1.0, 1.5]
+    if tclass in ("TStr", "TOptStr"):
+        return [], [True, 5, 1.5]
+    return [], []
+
+
+def same_value(a, b):
+    """equality that keeps True, 1 and 1.0 apart"""
+    return type(a) is type(b) and a == b
+
+
 MALFORMED_MD = [
     ["project: a", "project: b"],
     ["    continuation first", "project: x"],
@@ -686,9 +706,13 @@ def generate(ctx, chk):
     # (3) ill-typed values per option and format
     for name, tclass, init in ctx.schema:
         md, tm = ill_typed_values(tclass)
+        fmd, ftm = forced_ill_typed(tclass)
+        md = [v for v in md if v not in fmd]
+        tm = [v for v in tm if not any(same_value(v, f) for f in ftm)]
         if quick:
             md = rng.sample(md, min(2, len(md)))
             tm = rng.sample(tm, min(2, len(tm)))
+        md, tm = fmd + md, ftm + tm
         for vals in md:
             ctx.run_raw(["preprocess: false"] * rng.choice([0, 1]) + [f"{name}: {vals[0]}"] + ["    " + v for v in vals[1:]],
                         None, None, [], rng.choice([0, 1]), ("ill", 0, name), what="ill-typed markdown")
